@@ -420,7 +420,9 @@ class Gen:
             light = rng.choice(mats) if mats and rng.random() < 0.9 else None
             nm = light[0] if light else self.light_name()
             h, w = (light[3][1], light[3][2]) if light else (2, 2)
-            if rng.random() < 0.5:
+            # a target that is not a matrix light gets the implementation's 255 x 255 default matrix: one stage
+            # costs the model a second under vm_compute, so only the one-statement form is generated for it
+            if rng.random() < 0.5 or light is None:
                 rows, cols, rf, txt = self.gen_spans(h, w)
                 return ('"%s" %s' % (nm, txt), '(MatrixInline (NStr %s) %s %s %s)' % (coq_str(nm), rows, cols, rf))
             self.in_matrix = True
